@@ -653,7 +653,54 @@ def reg_program():
     return prog
 
 
+def decl_program():
+    """Declared-only variables and conditionally used undefined globals (C16)."""
+    F = [
+        fn("d1", ["p"], [["ann", "x", "int", None], use("x", "p"), ["bind", "y", ["add", var("x"), V]], ["ret", var("y")]]),
+        fn(
+            "d2",
+            ["p"],
+            [
+                ["bind", "y", V],
+                ["if", [["ann", "x", '"@A & @B"', None], use("x"), ["bind", "y", var("x")]], [["bind", "z", V]]],
+                ["ret", var("y")],
+            ],
+        ),
+        fn(
+            "d3",
+            ["p", "q"],
+            [
+                ["ann", "a", "int", None],
+                ["bind", "y", V],
+                ["ann", "b", "int", None],
+                use("a", "b", "y"),
+                ["ret", ["add", var("a"), var("b")]],
+            ],
+        ),
+        fn(
+            "u1",
+            ["p"],
+            [
+                ["bind", "y", V],
+                ["if", [use("UG1", "y")], []],
+                ["bind", "z", ["add", var("y"), var("G1")]],
+                ["ret", var("z")],
+            ],
+        ),
+        fn(
+            "u2",
+            ["p"],
+            [
+                ["try", [["if", [use("UG2")], []], ["bind", "y", V]], [["NameError", "e", [["bind", "y", V]]]], [], []],
+                ["ret", var("y")],
+            ],
+        ),
+    ]
+    return {"functions": F}
+
+
 PROGRAMS = {
+    "decl": decl_program,
     "reg": reg_program,
     "recv": recv_program,
     "loops": loops_program,
